@@ -1590,6 +1590,42 @@ Definition x_walker_source_prelude : list string :=\n  {}.\n",
 }
 
 
+/// the body of a function as normalised text (tokens without white space; logging macros dropped): used for the glue
+/// functions whose models are written by hand — an edit re-opens the obligation and the correspondence decides
+fn pinned_text(src: &Src, fname: &str) -> R<(String, usize)> {
+    let (_, block) = find_fn(src, fname)?;
+    let mut out = String::new();
+    for st in &block.stmts {
+        let t = quote::ToTokens::to_token_stream(st).to_string().replace(' ', "");
+        if t.starts_with("debug!") || t.starts_with("info!") || t.starts_with("warn!(\"--reflink") { continue; }
+        out.push_str(&t);
+    }
+    // drop logging macros nested deeper
+    let mut cleaned = String::new();
+    let mut rest = out.as_str();
+    loop {
+        let next = ["debug!(", "info!(", "error!(", "warn!("].iter().filter_map(|m| rest.find(m).map(|i| (i, *m))).min();
+        match next {
+            None => { cleaned.push_str(rest); break; }
+            Some((i, m)) => {
+                cleaned.push_str(&rest[..i]);
+                let mut depth = 0; let mut j = i + m.len() - 1; let b = rest.as_bytes(); let mut instr = false;
+                while j < b.len() {
+                    let c = b[j] as char;
+                    if c == '"' && (j == 0 || b[j - 1] as char != '\\') { instr = !instr; }
+                    if !instr { if c == '(' { depth += 1; } if c == ')' { depth -= 1; if depth == 0 { break; } } }
+                    j += 1;
+                }
+                let mut k = j + 1;
+                if k < b.len() && b[k] as char == ';' { k += 1; }
+                rest = &rest[k..];
+            }
+        }
+    }
+    Ok((cleaned, block.span().start().line))
+}
+
+
 fn main() {
     let root = std::env::args().nth(1).unwrap_or_else(|| "/repo".to_string());
     let root = Path::new(&root);
@@ -1696,6 +1732,29 @@ fn main() {
             }), &mut out);
         }
         Err(e) => emit("linux.rs", Err(e), &mut out),
+    }
+    let pins: &[(&str, &str)] = &[
+        ("libfs/src/common.rs", "allocate_file"), ("libfs/src/common.rs", "copy_owner"), ("libfs/src/common.rs", "copy_timestamps"),
+        ("libfs/src/common.rs", "copy_permissions"), ("libfs/src/common.rs", "sync"), ("libfs/src/common.rs", "is_same_file"),
+        ("libxcp/src/paths.rs", "parse_ignore"), ("libxcp/src/paths.rs", "ignore_filter"),
+        ("libxcp/src/backup.rs", "get_backup_path"), ("libxcp/src/backup.rs", "has_backup"), ("libxcp/src/backup.rs", "is_num_backup"),
+        ("libxcp/src/operations.rs", "finalise_copy"), ("libxcp/src/operations.rs", "drop"), ("libxcp/src/operations.rs", "new"),
+        ("libxcp/src/drivers/parfile.rs", "copy"), ("libxcp/src/drivers/parfile.rs", "copy_worker"),
+        ("libxcp/src/drivers/parblock.rs", "copy"), ("libxcp/src/drivers/parblock.rs", "dispatch_worker"),
+        ("libxcp/src/drivers/parblock.rs", "queue_file_range"),
+        ("libxcp/src/feedback.rs", "new"), ("libxcp/src/feedback.rs", "send"),
+        ("src/main.rs", "main"), ("src/main.rs", "expand_globs"), ("src/main.rs", "opts_check"),
+    ];
+    {
+        let mut items = vec![];
+        for (file, f) in pins {
+            match load(root, file).and_then(|src| pinned_text(&src, f)) {
+                Ok((t, _)) => items.push(format!("(\"{}::{}\", \"{}\")", file, f, t.replace('"', "\"\""))),
+                Err(e) => { failures.push(format!("pin {}::{}: {}", file, f, e)); }
+            }
+        }
+        writeln!(out, "(* the glue functions whose models are written by hand: their bodies as normalised text (logging dropped) *)").unwrap();
+        writeln!(out, "Definition x_pinned : list (string * string) :=\n  [{}].\n", items.join(";\n   ")).unwrap();
     }
     print!("{}", out);
     for f in &failures { eprintln!("xlate: {}", f); }
